@@ -74,6 +74,14 @@ Theorem C05_project_twice_defect : forall pl p,
        (vscale ROps (plane_sd ROps pl p * (1 - vnorm2 ROps (pnormal pl))) (pnormal pl)).
 Proof. exact project_twice_defect. Qed.
 
+Theorem C05_canonical_sd_defect : forall pl,
+  plane_sd ROps pl (canonical_point ROps pl) = vdot ROps (pref pl) (pnormal pl) * (vnorm2 ROps (pnormal pl) - 1).
+Proof. exact canonical_sd_defect. Qed.
+Theorem C05_mirror_twice_defect : forall pl p,
+  plane_mirror ROps pl (plane_mirror ROps pl p) =
+  vadd ROps p (vscale ROps (4 * plane_sd ROps pl p * (vnorm2 ROps (pnormal pl) - 1)) (pnormal pl)).
+Proof. exact mirror_twice_defect. Qed.
+
 (* mirroring *)
 Theorem C05_mirror_negates : forall pl p, unit_normal pl ->
   plane_sd ROps pl (plane_mirror ROps pl p) = - plane_sd ROps pl p.
@@ -126,7 +134,8 @@ Example C05_unit_normal_inhabited :
 Proof. unfold unit_normal, vnorm2, vdot; cbn. field. Qed.
 
 (* one pass over all of them *)
-Definition C05_all := (C05_project_sd_defect, C05_mirror_sd_defect, C05_project_twice_defect, C05_pairs_length,
+Definition C05_all := (C05_canonical_sd_defect, C05_mirror_twice_defect,
+  C05_project_sd_defect, C05_mirror_sd_defect, C05_project_twice_defect, C05_pairs_length,
   C05_sd_is_dot,
   C05_sign_classifies,
   C05_front_partition,
